@@ -12,6 +12,7 @@ import (
 	"path/filepath"
 	"strconv"
 	"strings"
+	"sync"
 	"syscall"
 	"time"
 
@@ -55,10 +56,12 @@ type Observation struct {
 	PidMsgs    int       `json:"pid_msgs"`
 	Signals    []string  `json:"signals"`   // TERM/INT seen by the main child, in order
 	Resubs     int       `json:"resubs"`    // re-subscriptions (the event loop ended with an error)
-	Crashed    bool      `json:"crashed"`   // executor process died with a Go panic / fatal error
+	Crashed    bool      `json:"crashed"`   // the executor process died (Go panic / fatal error / exit)
 	ExitedBy   string    `json:"exited_by"` // "" alive at the end | "panic" | "exit N" | "signal"
 	Survivors  int       `json:"survivors"` // live (non-zombie) processes left in the task's process groups
-	MainAlive  bool      `json:"main_alive"`
+	MainAlive  bool      `json:"main_alive"` // a task child proper is still running
+	GcAlive    bool      `json:"gc_alive"`   // a process forked by a task child is still running
+	BeforeKill int       `json:"before_kill"` // statuses seen when the first KILL was sent (all, without KILL)
 	KillMs     int       `json:"kill_ms"`  // KILL request -> whole group gone (-1: n/a or never)
 	Unrealised []string  `json:"unrealised,omitempty"`
 	Raw        []obsItem `json:"raw,omitempty"`
@@ -81,17 +84,35 @@ type runner struct {
 	deadAt   time.Time
 	obs      Observation
 	nEvents  int
+	pos      int
 	self     string
 }
 
+var portMu sync.Mutex
+var portNext int
+
+// freePort: a port below the ephemeral range (so no client socket of a parallel scenario can take
+// it between this probe and the stub's listen), probed free, never handed out twice by this run.
 func freePort() int {
-	ln, err := net.Listen("tcp", "127.0.0.1:0")
-	if err != nil {
-		return 0
+	portMu.Lock()
+	defer portMu.Unlock()
+	if portNext == 0 {
+		portNext = 20000 + (os.Getpid()*37)%9000
 	}
-	p := ln.Addr().(*net.TCPAddr).Port
-	ln.Close()
-	return p
+	for try := 0; try < 2000; try++ {
+		p := portNext
+		portNext++
+		if portNext >= 30000 {
+			portNext = 20000
+		}
+		ln, err := net.Listen("tcp", fmt.Sprintf("127.0.0.1:%d", p))
+		if err != nil {
+			continue
+		}
+		ln.Close()
+		return p
+	}
+	return 0
 }
 
 const childScript = `#!/bin/sh
@@ -106,6 +127,7 @@ else
 fi
 if [ "$C17_FORK" = 1 ]; then
   ( trap '' TERM INT HUP; exec sleep 300 ) >/dev/null 2>&1 &
+  echo $! >> "$D/gcpids"
 fi
 read -r _ _ _ _ pgrp _ < /proc/$$/stat
 echo "$$ $pgrp" >> "$D/pids"
@@ -317,6 +339,33 @@ func groupMembers(pgid int) []int {
 	return out
 }
 
+func procLive(pid int) bool {
+	raw, err := os.ReadFile(fmt.Sprintf("/proc/%d/stat", pid))
+	if err != nil {
+		return false
+	}
+	s := string(raw)
+	i := strings.LastIndex(s, ")")
+	if i < 0 {
+		return false
+	}
+	fs := strings.Fields(s[i+1:])
+	return len(fs) > 0 && fs[0] != "Z" && fs[0] != "X"
+}
+
+func (r *runner) gcAlive() bool {
+	raw, err := os.ReadFile(filepath.Join(r.dir, "gcpids"))
+	if err != nil {
+		return false
+	}
+	for _, f := range strings.Fields(string(raw)) {
+		if pid, err := strconv.Atoi(f); err == nil && pid > 0 && procLive(pid) {
+			return true
+		}
+	}
+	return false
+}
+
 func (r *runner) liveCount() (total int, mainAlive bool) {
 	seen := map[int]bool{}
 	for _, pl := range r.pidLines() {
@@ -446,34 +495,52 @@ func (r *runner) step(a string) {
 	case "listen":
 		os.WriteFile(filepath.Join(r.dir, "listen"), []byte("1"), 0o644)
 		// the executor's dial retries with backoff; the first GetState marks the end of the dial
-		deadline := time.Now().Add(4 * time.Second)
+		deadline := time.Now().Add(5 * time.Second)
+		seen := false
 		for time.Now().Before(deadline) && r.executorAlive() {
 			if raw, err := os.ReadFile(filepath.Join(r.dir, "rpc")); err == nil && strings.Contains(string(raw), "GetState") {
+				seen = true
 				break
 			}
 			time.Sleep(20 * time.Millisecond)
 		}
+		if !seen && r.executorAlive() {
+			r.obs.Unrealised = append(r.obs.Unrealised, "listen: the executor's client did not connect")
+		}
 	case "ready":
 		os.WriteFile(filepath.Join(r.dir, "ready"), []byte("1"), 0o644)
-		r.ag.waitFor(func(items []obsItem) bool {
+		if !r.ag.waitFor(func(items []obsItem) bool {
 			for _, it := range items {
 				if it.Class == "status" {
 					return true
 				}
 			}
 			return !r.executorAlive()
-		}, 2500*time.Millisecond)
+		}, 3*time.Second) {
+			r.obs.Unrealised = append(r.obs.Unrealised, "ready: no status within 3 s")
+		}
 		time.Sleep(100 * time.Millisecond)
 	case "kill":
 		r.waitStream()
 		if !r.killSent {
 			r.killSent = true
 			r.killAt = time.Now()
+			r.obs.BeforeKill = len(r.statuses())
+			// a KILL meant to arrive before the RUNNING timer must really do so
+			timerLater := false
+			for _, x := range r.sc.Sched[r.pos+1:] {
+				if x == "timer" {
+					timerLater = true
+				}
+			}
+			if timerLater && r.obs.BeforeKill > 0 {
+				r.obs.Unrealised = append(r.obs.Unrealised, "kill after the RUNNING timer had fired")
+			}
 		}
 		r.ag.send(&executor.Event{Type: executor.Event_KILL, Kill: &executor.Event_Kill{TaskID: r.taskID}})
 		if r.sc.Kind == "ctl" {
 			r.ctlKill = true
-			time.Sleep(400 * time.Millisecond)
+			time.Sleep(500 * time.Millisecond)
 		} else {
 			r.ag.waitFor(func([]obsItem) bool { return r.hasTerminal() || !r.executorAlive() }, time.Second)
 			time.Sleep(150 * time.Millisecond)
@@ -533,9 +600,11 @@ func runScenario(sc Scenario, dir string, keepRaw bool) Observation {
 	}
 	time.Sleep(30 * time.Millisecond)
 
-	for _, a := range sc.Sched {
+	for i, a := range sc.Sched {
+		r.pos = i
 		r.step(a)
 	}
+
 	r.quiet(250 * time.Millisecond)
 	r.trackDeath()
 
@@ -571,15 +640,18 @@ func runScenario(sc Scenario, dir string, keepRaw bool) Observation {
 		r.obs.Resubs = 0
 	}
 	if !r.executorAlive() {
+		// the executor process is gone: a Go panic / fatal error, or any other way of leaving —
+		// for the tasks it managed it is the same thing
+		r.obs.Crashed = true
 		logf.Sync()
 		txt, _ := os.ReadFile(filepath.Join(dir, "executor.log"))
 		s := string(txt)
-		if i := strings.Index(s, "panic:"); i >= 0 || strings.Contains(s, "fatal error:") {
-			r.obs.Crashed = true
+		i := strings.Index(s, "panic:")
+		if i < 0 {
+			i = strings.Index(s, "fatal error:")
+		}
+		if i >= 0 {
 			r.obs.ExitedBy = "panic"
-			if i < 0 {
-				i = strings.Index(s, "fatal error:")
-			}
 			end := i + 600
 			if end > len(s) {
 				end = len(s)
@@ -592,6 +664,10 @@ func runScenario(sc Scenario, dir string, keepRaw bool) Observation {
 		}
 	}
 	r.obs.Survivors, r.obs.MainAlive = r.liveCount()
+	r.obs.GcAlive = r.gcAlive()
+	if !r.killSent {
+		r.obs.BeforeKill = len(r.obs.Statuses)
+	}
 	if r.killSent && !r.deadAt.IsZero() {
 		r.obs.KillMs = int(r.deadAt.Sub(r.killAt) / time.Millisecond)
 	}
@@ -605,6 +681,13 @@ func runScenario(sc Scenario, dir string, keepRaw bool) Observation {
 	}
 	for _, pl := range r.pidLines() {
 		syscall.Kill(-pl[1], syscall.SIGKILL)
+	}
+	if raw, err := os.ReadFile(filepath.Join(dir, "gcpids")); err == nil {
+		for _, f := range strings.Fields(string(raw)) {
+			if pid, err := strconv.Atoi(f); err == nil && pid > 1 {
+				syscall.Kill(pid, syscall.SIGKILL)
+			}
+		}
 	}
 	logf.Close()
 	return r.obs
